@@ -130,7 +130,7 @@ def _gen(g):
                     script.append([k, d, g.choice(TOTALS), g.choice([-1, 0, 0, 1]), g.choice([0, 0, 1, 2]), g.chance(20)])
         actors.append(script)
     case = {"kind": kind, "config": g.choice(["S", "S", "E", "U"]), "actors": actors,
-            "nest": g.choice([0, 0, 1, 2]), "adapter": g.chance(20)}
+            "nest": g.choice([0, 0, 1, 2]), "adapter": g.chance(20), "residue": g.chance(12)}
     if kind == "sem":
         case["initial"] = g.int(0, 3)
         case["max"] = g.choice([None, None, case["initial"], case["initial"] + 1])
@@ -256,6 +256,7 @@ def run_case(case) -> Outcome:
 
     async def body(sim):
         sim.nest = case.get("nest", 0)
+        sim.residue = bool(case.get("residue"))
         if prebuilt is not None:
             prim = prebuilt
         elif is_sem:
